@@ -225,7 +225,7 @@ func decodeOut(pi []byte) M {
 	var err error
 	out["decode_panic"] = vCatch(func() {
 		sharedTurn++
-		if sharedTurn%2 == 0 {
+		if sharedTurn%4 >= 2 { // U, U, S, S, ...: both decoders meet a value that already decoded and hashed something else
 			p, err = sharedProof.SetBytes(pi)
 		} else if err = sharedProof.UnmarshalBinary(pi); err == nil {
 			p = &sharedProof
